@@ -349,7 +349,8 @@ def _shard_worker(argt):
             res["per_config"][cfgname] = res["per_config"].get(cfgname, 0) + nev
         # samples: a few cases written out
         for c in all_cases[:2] + all_cases[-1:]:
-            res["samples"].append(dict(lines=c.lines[:6], classes=list(c.classes), desc=c.desc))
+            res["samples"].append(dict(lines=[(ln if len(ln) <= 400 else ln[:400] + "...(%d chars)" % len(ln)) for ln in c.lines[:6]],
+                                       classes=list(c.classes), desc=c.desc))
         res["distinct"] = list(res["distinct"])
         import resource
         res["maxrss_mb"] = resource.getrusage(resource.RUSAGE_SELF).ru_maxrss // 1024
@@ -459,6 +460,17 @@ def match_known(prop, viol, known):
 # ---------------------------------------------------------------------------
 # Reporter
 
+def _short_samples(samples):
+    """evidence files stay small: request lines are cut to 400 characters"""
+    out = []
+    for smp in samples:
+        d = dict(smp)
+        if isinstance(d.get("lines"), list):
+            d["lines"] = [(ln if len(ln) <= 400 else ln[:400] + "...(%d chars)" % len(ln)) for ln in d["lines"]]
+        out.append(d)
+    return out
+
+
 class Report:
     def __init__(self, prop, tier, seed, level="exploration"):
         self.prop = prop
@@ -528,7 +540,7 @@ class Report:
             "distinct_nontrivial_counting": ("exact" if getattr(self.distinct, "exact", True) else
                                              "estimated from a 2^-%d sample of request digests" % self.distinct.level),
             "rule": self.rule,
-            "samples": self.samples[:6],
+            "samples": _short_samples(self.samples[:6]),
             "classes": dict(sorted(self.classes.items())),
             "required_classes_missing": missing,
             "per_config_events": self.per_config,
